@@ -468,3 +468,15 @@ def run(ctx):
     # (pieces the king cannot see ...) misjudges the e.p. capture that removes two pawns from the king's line
     from . import c01
     c01.r6_legal_filter(ctx)
+
+
+_run_before_shared_c14 = run
+
+
+def run(ctx):
+    _run_before_shared_c14(ctx)
+    # "mate and stalemate are never confused" is observed at the SAN writer's suffix too: '#' only on an in-check test
+    # evaluated after the move (C14.R1, shared)
+    from . import c14
+    c14.r1_mate_needs_check(ctx)
+    c14.r1b_check_test_unconditional(ctx)
